@@ -14,7 +14,7 @@ use serde_json::Value;
 pub fn def() -> PropDef {
     PropDef {
         id: "C14",
-        rule: "all four subsets of {ssse3, avx2} (exhaustive; intersected with what the CPU reports) x generated workloads (encode + decode rounds through ReedSolomonEncoder/Decoder, DefaultRate<DefaultEngine>, the one-shot functions, and raw DefaultEngine primitives; configurations small..medium, sizes with tails). oracle: ISA trace recorded by the hooks in every #[target_feature] entry point: no entry point of an ISA outside the mask is reached; for best = max(mask) every primitive the workload necessarily exercises was executed by the best ISA and no weaker SIMD ISA ran; empty mask => no SIMD entry point at all; output bytes identical under all masks and equal to the explicit NoSimd engine. non-trivial: mask != full and the workload contains a decode; distinct by (workload, mask)",
+        rule: "all four subsets of {ssse3, avx2} (exhaustive; intersected with what the CPU reports) x generated workloads (encode + decode rounds through ReedSolomonEncoder/Decoder, DefaultRate<DefaultEngine>, the one-shot functions, and raw DefaultEngine primitives; configurations small..medium, sizes with tails), plus raw DefaultEngine transforms over working sets drawn log-uniformly from 1 MiB to 512 MiB (quick) / 1 GiB (thorough). oracle: ISA trace recorded by the hooks in every #[target_feature] entry point: no entry point of an ISA outside the mask is reached; for best = max(mask) every primitive the workload necessarily exercises was executed by the best ISA and no weaker SIMD ISA ran; empty mask => no SIMD entry point at all; output bytes identical under all masks and equal to the explicit NoSimd engine. non-trivial: mask != full and the workload contains a decode; distinct by (workload, mask)",
         assumptions: &[
             "decides the x86 selection logic; the AArch64 branch is cfg-ed out on this host",
             "calibration: explicit Avx2 / Ssse3 engines must produce their trace bits, otherwise the check is inconclusive (exit 2), never a violation",
@@ -27,6 +27,7 @@ fn parts() -> Vec<Box<dyn PartDyn>> {
     vec![
         Box::new(Calibration),
         Box::new(GenPart { name: "masks", quick: 10_000, thorough: 60_000, shrink_iters: 300, strat: strategy, check }),
+        Box::new(GenPart { name: "big_transforms", quick: 12, thorough: 300, shrink_iters: 20, strat: big_strategy, check: check_big }),
     ]
 }
 
@@ -209,5 +210,74 @@ fn check(c: &MaskCase, st: &mut Stats) -> CheckResult {
     st.classf("via", format!("{:?}", c.via));
     st.classf("decode", c.decode);
     st.evaluations += 3; // one evaluation per (workload, mask)
+    Ok(())
+}
+
+// ----------------------------------------------------------------------
+// raw DefaultEngine transforms over working sets from 1 MiB to 512 MiB / 1 GiB (log-uniform):
+// size-dependent dispatch (thresholds in bytes) is invisible to small workloads
+
+#[derive(Clone, Debug, PartialEq, Eq, Hash, Serialize, Deserialize)]
+pub struct BigXf {
+    pub size_log: u8,
+    /// log2 of the working set in bytes, times 4
+    pub bytes_q: u8,
+    pub seed: u64,
+}
+
+fn big_strategy(t: Tier) -> BoxedStrategy<BigXf> {
+    let max_q = t.pick(4 * 29u8, 4 * 30u8);
+    (prop_oneof![3 => 1u8..=3, 1 => 4u8..=8], prop_oneof![1 => (4 * 20u8)..=(4 * 26u8), 3 => (4 * 26u8)..=max_q], any::<u64>()).prop_map(|(size_log, bytes_q, seed)| BigXf { size_log, bytes_q, seed }).boxed()
+}
+
+fn check_big(c: &BigXf, st: &mut Stats) -> CheckResult {
+    let bytes = 2f64.powf(c.bytes_q as f64 / 4.0) as usize;
+    crate::runner::with_memory_budget(bytes * 2 + (1 << 20), || check_big_inner(c, bytes, st))
+}
+
+fn check_big_inner(c: &BigXf, bytes: usize, st: &mut Stats) -> CheckResult {
+    let cpu = (if Eng::Ssse3.available() { MASK_SSSE3 } else { 0 }) | (if Eng::Avx2.available() { MASK_AVX2 } else { 0 });
+    let size = 1usize << c.size_log;
+    let blocks = (bytes / size / 64).max(1);
+    let mut input = Buf::zeroed(size, blocks, 0);
+    // cheap non-zero content
+    let mut x = c.seed | 1;
+    for blk in input.data.iter_mut() {
+        x ^= x << 13;
+        x ^= x >> 7;
+        x ^= x << 17;
+        blk[..8].copy_from_slice(&x.to_le_bytes());
+        blk[56..].copy_from_slice(&x.to_be_bytes());
+    }
+    let mut digests = Vec::new();
+    for mask in 0u8..4 {
+        let eff = mask & cpu;
+        let mut buf = input.clone();
+        let trace = {
+            let _g = MaskGuard::set(mask);
+            let _ = take_trace();
+            prims::xform(Eng::Default, Xform::Ifft, &mut buf, 0, size, size, 0);
+            prims::xform(Eng::Default, Xform::Fft, &mut buf, 0, size, size, 0);
+            prims::mul(Eng::Default, &mut buf.data[..blocks], 4242);
+            take_trace()
+        };
+        let best = if eff & MASK_AVX2 != 0 { Some(ISA_AVX2) } else if eff & MASK_SSSE3 != 0 { Some(ISA_SSSE3) } else { None };
+        let allowed = match best {
+            Some(isa) => trace_bit(isa, PRIM_FFT) | trace_bit(isa, PRIM_IFFT) | trace_bit(isa, PRIM_MUL),
+            None => 0,
+        };
+        if trace != allowed {
+            fail!(
+                "mask {mask:#04b}: ifft + fft + mul of {size} shards x {} bytes ({} MiB working set) through DefaultEngine reached entry points {trace:#x}, expected exactly {allowed:#x} (bit = isa*4 + {{mul,fft,ifft,eval_poly}}; isa 0 = ssse3, 1 = avx2): not every primitive ran on the best reported ISA",
+                blocks * 64, size * blocks * 64 >> 20
+            );
+        }
+        digests.push(crate::runner::hash_of(&buf.data[..blocks.min(4096)]));
+        st.classf("mask", format!("{mask:02b}"));
+    }
+    ensure!(digests.windows(2).all(|w| w[0] == w[1]), "results of large transforms differ between feature masks");
+    st.classf("working_set_MiB_log2", c.bytes_q as i64 / 4 - 20);
+    st.evaluations += 3;
+    st.nontrivial_case("big_transforms", c);
     Ok(())
 }
